@@ -294,8 +294,11 @@ class Gen:
 
     def _field_cons(self, f, base):
         r = self.rng
-        if isinstance(f.t, Ann):
-            return
+        t = f.t
+        while isinstance(t, (Ann, NewT)):  # constraints are merged: two patterns cannot be (by design)
+            if isinstance(t, Ann):
+                return
+            t = t.t
         if isinstance(base, Prim) and base.p in ("int", "float"):
             f.cons = dict(r.choice(NUM_CONS))
         elif isinstance(base, Prim) and base.p == "str":
